@@ -290,6 +290,8 @@ class C03(core.Check):
                 if item[0] != "blocks" or i >= len(item[1]):
                     return None, None
                 s, r = item[1][i], r.get(k)[i]
+            if s.get("type") is None:
+                return None, None  # an empty untyped child is not an object one can edit through a path
         return s, r
 
     @staticmethod
